@@ -26,6 +26,7 @@ type vfNMState struct {
 	requests int // requests that reached the broker
 	returned int
 	needLate string
+	statusFor map[int]bool // callers for which the peer injected a 503 status message
 }
 
 func vfNatsMuxMake(scn string) (func(), func(*vsched.Exec) (string, *vsched.Violation)) {
@@ -33,10 +34,16 @@ func vfNatsMuxMake(scn string) (func(), func(*vsched.Exec) (string, *vsched.Viol
 	// r=0: nobody subscribed to the service subject
 	cfg := vfParseMuxCfg(scn)
 	wait, responder := true, true
+	stallPings := false
 	// frames: "2" the response of caller 2 on its own reply subject, "u" an op id nobody issued on a
 	// subject nobody listens to specifically, "1@2" the response of caller 1 published on caller 2's
 	// reply subject (a stray / misdirected message), "u@1" an unknown op id on caller 1's subject
-	type nmFrame struct{ op, subj int }
+	// "s1": a 503 no-responders status message on caller 1's reply subject (a broker may send one
+	// per request; a second one, or one next to a real response, must be harmless)
+	type nmFrame struct {
+		op, subj int
+		status   bool
+	}
 	var frames []nmFrame
 	for _, kv := range strings.Split(scn, ",") {
 		switch {
@@ -44,6 +51,8 @@ func vfNatsMuxMake(scn string) (func(), func(*vsched.Exec) (string, *vsched.Viol
 			wait = false
 		case kv == "r=0":
 			responder = false
+		case kv == "pings=stall":
+			stallPings = true
 		case strings.HasPrefix(kv, "f="):
 			for _, tok := range strings.Split(strings.TrimPrefix(kv, "f="), ".") {
 				if tok == "" {
@@ -58,6 +67,11 @@ func vfNatsMuxMake(scn string) (func(), func(*vsched.Exec) (string, *vsched.Viol
 					fmt.Sscanf(s, "%d", &n)
 					return n - 1
 				}
+				if strings.HasPrefix(tok, "s") {
+					c := idx(tok[1:])
+					frames = append(frames, nmFrame{op: c, subj: c, status: true})
+					continue
+				}
 				fr := nmFrame{op: idx(parts[0]), subj: idx(parts[0])}
 				if len(parts) == 2 {
 					fr.subj = idx(parts[1])
@@ -69,9 +83,10 @@ func vfNatsMuxMake(scn string) (func(), func(*vsched.Exec) (string, *vsched.Viol
 	var st *vfNMState
 	body := func() {
 		vfResetGlobals()
-		st = &vfNMState{}
+		st = &vfNMState{statusFor: map[int]bool{}}
 		reqObj := vsched.NewObj("requests-seen")
 		conn := fakenats.NewConn()
+		conn.StallPings = stallPings
 		st.conn = conn
 		tr := NewFNatsTransport(conn, "svc", "inbox").(*fNatsTransport)
 		st.tr = tr
@@ -126,6 +141,14 @@ func vfNatsMuxMake(scn string) (func(), func(*vsched.Exec) (string, *vsched.Viol
 					if fr.subj >= 0 && fr.subj < cfg.n {
 						subjOp = st.callers[fr.subj].opid
 					}
+					if fr.status {
+						vsched.Yield()
+						if c >= 0 && c < cfg.n {
+							st.statusFor[c] = true
+						}
+						conn.Inject("inbox."+subjOp, "", fakenats.Header{"Status": {"503"}}, nil)
+						continue
+					}
 					mark := fmt.Sprintf("m%d", len(st.emitted))
 					frame := vfFrame(map[string]string{"_opid": op, "_cid": "x"}, []byte(mark))
 					// evaluated atomically with the broker's routing step
@@ -166,10 +189,18 @@ func vfNatsMuxMake(scn string) (func(), func(*vsched.Exec) (string, *vsched.Viol
 				c.start = vsched.Current().Now()
 				c.tid = vsched.Current().CurThread().ID
 				c.started = true
-				res, err := tr.Request(c.ctx, payload)
+				var res thrift.TTransport
+				var err error
+				if cfg.oneway {
+					err = tr.Oneway(c.ctx, payload)
+				} else {
+					res, err = tr.Request(c.ctx, payload)
+				}
 				c.retClock = vsched.Current().Now() - c.start
 				c.done = true
 				switch {
+				case err == nil && cfg.oneway:
+					c.outcome = "sent"
 				case err != nil:
 					if te, ok := err.(thrift.TTransportException); ok {
 						c.errType = te.TypeId()
@@ -247,7 +278,12 @@ func vfNatsMuxMake(scn string) (func(), func(*vsched.Exec) (string, *vsched.Viol
 			emitted[f] = true
 		}
 		for i, c := range st.callers {
+			if c.done && e.EarlyTimers == 0 && c.retClock > int64(c.timeout) {
+				viol("C13/late-return/nats", fmt.Sprintf("caller%d returned %q %dns after the call although its timeout is %s and no timer fired early (NATS transport)", i, c.outcome, c.retClock, c.timeout))
+			}
 			switch {
+			case c.outcome == "sent" && cfg.oneway:
+				// a oneway call returns once the request is handed to the connection
 			case strings.HasPrefix(c.outcome, "ok:"):
 				if c.gotOpid != c.opid {
 					viol("C01/wrong-response", fmt.Sprintf("caller%d (op %s) completed with a frame for op %s (NATS transport)", i, c.opid, c.gotOpid))
@@ -265,7 +301,7 @@ func vfNatsMuxMake(scn string) (func(), func(*vsched.Exec) (string, *vsched.Viol
 				if !responder && e.EarlyTimers == 0 {
 					viol("C01/no-responders-not-reported", fmt.Sprintf("caller%d timed out although the broker answered its request with a 503 no-responders status", i))
 				}
-			case c.outcome == fmt.Sprintf("terr%d", TRANSPORT_EXCEPTION_SERVICE_NOT_AVAILABLE) && !responder:
+			case c.outcome == fmt.Sprintf("terr%d", TRANSPORT_EXCEPTION_SERVICE_NOT_AVAILABLE) && (!responder || st.statusFor[i]):
 				// nobody listens on the service subject
 			default:
 				viol("C01/unexpected-outcome/nats/"+c.outcome, fmt.Sprintf("caller%d: outcome %q is neither its own response nor a timeout (NATS transport)", i, c.outcome))
@@ -284,6 +320,9 @@ func vfNatsMuxMake(scn string) (func(), func(*vsched.Exec) (string, *vsched.Viol
 		}
 		if e.EarlyTimers == 0 {
 			for i, c := range st.callers {
+				if st.statusFor[i] && c.outcome == fmt.Sprintf("terr%d", TRANSPORT_EXCEPTION_SERVICE_NOT_AVAILABLE) {
+					continue // the no-responders status got there first
+				}
 				if c.deliverable != "" && !strings.HasPrefix(c.outcome, "ok:") {
 					viol("C06/response-not-delivered", fmt.Sprintf("caller%d ended with %q although the peer published its response (%s) while the request was registered and before its deadline (NATS transport)", i, c.outcome, c.deliverable))
 				}
@@ -325,6 +364,12 @@ func init() {
 			// on a live request's subject
 			for _, f := range []string{"1@2", "2@1", "u@1", "u@2", "1@2.2", "2@1.1", "1@2.1.2", "u@2.2", "1@u"} {
 				out = append(out, "n=2,t=1/5,w=1,f="+f)
+			}
+			// oneway calls; a broker that stops answering PINGs while the connection still counts as up
+			out = append(out, "n=2,t=1/5,w=1,call=oneway,f=", "n=2,t=1/5,w=1,call=oneway,f=1.u", "n=2,t=1/5,w=1,pings=stall,f=1.2", "n=2,t=1/5,w=1,pings=stall,f=", "n=2,t=1/5,w=1,pings=stall,call=oneway,f=")
+			// 503 status messages: one, two for the same request, one next to a response, one for nobody
+			for _, f := range []string{"s1.2", "s1.s1.2", "s2.s2.1", "1.s1.2", "s1.1.2", "su.2", "s1.s1.s1.2"} {
+				out = append(out, "n=2,t=5/5,w=1,f="+f)
 			}
 			if tier == "thorough" {
 				for _, f := range []string{"1.2.3", "3.3.1", "2.2.2", "1.1.2.3", "3.2.1.u"} {
